@@ -1259,7 +1259,8 @@ pub fn req_params(method: &str, uri: &str, line: u32, ch: u32) -> Value {
         "textDocument/inlayHint" => json!({"textDocument": td, "range": {"start": {"line": 0, "character": 0}, "end": {"line": 10000, "character": 0}}}),
         "textDocument/references" => json!({"textDocument": td, "position": {"line": line, "character": ch}, "context": {"includeDeclaration": false}}),
         "textDocument/documentSymbol" => json!({"textDocument": td}),
-        "textDocument/codeAction" => json!({"textDocument": td, "range": {"start": {"line": line, "character": ch}, "end": {"line": line, "character": ch}}, "context": {"diagnostics": []}}),
+        // a third of the code-action requests carry a non-empty selection (only the helix client gets actions then)
+        "textDocument/codeAction" => json!({"textDocument": td, "range": {"start": {"line": line, "character": ch}, "end": {"line": line + (line % 3 == 1) as u32, "character": ch + if line % 3 == 2 { 4 } else { 0 }}}, "context": {"diagnostics": []}}),
         "textDocument/rename" => json!({"textDocument": td, "position": {"line": line, "character": ch}, "newName": "new-name"}),
         _ => json!({"textDocument": td, "position": {"line": line, "character": ch}}),
     }
